@@ -86,6 +86,21 @@ func genPerm(r *rand.Rand, s *ast.Schema, def *ast.Definition, depth int) brambl
 	return bramble.AllowedFields{AllowedSubfields: m}
 }
 
+// per fixture: an abstract root field, direct root fields to its possible types (with one leaf to allow there), and
+// selections through the abstract field that need more than the direct paths allow
+var twoPaths = map[string]struct {
+	abstract string
+	direct   [][2]string
+	sel      []string
+}{
+	"movies": {"things", [][2]string{{"me", "name"}, {"topReview", "stars"}, {"reviews", "stars"}},
+		[]string{"zzT: things { ... on Person { nick films { title } } ... on Review { helpful movie { title } } }",
+			"zzT: things { ... on Person { id films { id year } } }", "zzT: things { ... on Review { id author { name nick } body } }"}},
+	"shared": {"tools", [][2]string{{"gizmo", "label"}},
+		[]string{"zzT: tools { ... on Gizmo { price stock twin { label } } label }", "zzT: tools { ... on Gizmo { id twin { id weight } } }",
+			"zzT: tools { ... on Gizmo { stock twin { price } } ... on Hammer { heft } }"}},
+}
+
 func runProfile(cfg runCfg, prof string) error {
 	r := rand.New(rand.NewSource(cfg.seed))
 	sum := &summary{Property: strings.ToUpper(prof), Seed: cfg.seed, Features: map[string]int{}, CaseInputs: map[string]interface{}{}}
@@ -204,6 +219,38 @@ func runProfile(cfg runCfg, prof string) error {
 			p := bramble.OperationPermissions{AllowedRootQueryFields: genPerm(r, env.gw.es.MergedSchema, env.gw.es.MergedSchema.Query, 1+r.Intn(4))}
 			if r.Intn(6) == 0 {
 				p = bramble.OperationPermissions{AllowedRootQueryFields: bramble.AllowedFields{AllowAll: true}, AllowedRootMutationFields: bramble.AllowedFields{AllowAll: true}}
+			}
+			if tp, ok := twoPaths[env.fx.Name]; ok && r.Intn(2) == 0 && !p.AllowedRootQueryFields.AllowAll && !strings.Contains(q, "...") {
+				// one concrete type reachable directly (narrow permissions) and through an abstract field (wide permissions):
+				// what the abstract path grants must not be lost because the type was already met on the direct path
+				// nothing else leads to these types: the rest of the drawn tree is dropped
+				sub := map[string]bramble.AllowedFields{}
+				p.AllowedRootQueryFields.AllowedSubfields = sub
+				for _, d := range tp.direct {
+					sub[d[0]] = bramble.AllowedFields{AllowedSubfields: map[string]bramble.AllowedFields{d[1]: {AllowAll: true}}}
+				}
+				if r.Intn(4) == 0 {
+					sub[tp.abstract] = bramble.AllowedFields{AllowAll: true}
+				} else { // wide, but spelled out: every field of every possible type
+					wide := map[string]bramble.AllowedFields{}
+					ms := env.gw.es.MergedSchema
+					if af := ms.Query.Fields.ForName(tp.abstract); af != nil {
+						for _, pt := range ms.PossibleTypes[af.Type.Name()] {
+							for _, f := range pt.Fields {
+								wide[f.Name] = bramble.AllowedFields{AllowAll: true}
+							}
+						}
+					}
+					sub[tp.abstract] = bramble.AllowedFields{AllowedSubfields: wide}
+				}
+				if i := strings.Index(q, "{"); i >= 0 {
+					q2 := q[:i+1] + " " + tp.sel[r.Intn(len(tp.sel))] + q[i+1:]
+					if d2, gerr := loadQuery(env.gw.es.MergedSchema, q2); gerr == nil {
+						q, doc = q2, d2
+						in["query"] = q
+						sum.Features["type_on_direct_and_abstract_path"]++
+					}
+				}
 			}
 			env.gw.perm.perms[name] = p
 			hdr["X-Perm"] = name
